@@ -98,6 +98,7 @@ static bool call_to_string(long cap, size_t stale, bool nice, size_t *size_out, 
     cur_cap = cap; cur_nice = nice;
     vf_progress++;
     vf_count(CT_RUNS, 1);
+    vf_stack_paint();
     bool r = binson_parser_to_string(L.p, dst, &sz, nice);
     *size_out = sz;
     if (text_out) *text_out = blk; else free(blk);
@@ -316,7 +317,8 @@ static void run_valid(vf_doc *d, const char *label)
     if (!run_valid_once()) {
         char w1[400], s1[80];
         snprintf(w1, sizeof w1, "%s", why); snprintf(s1, sizeof s1, "%s", sigk);
-        if (run_valid_once() || strcmp(w1, why)) vf_die("text violation did not reproduce (%s | %s)", w1, why);
+        if (run_valid_once()) vf_die("text violation did not reproduce (%s)", w1);
+        if (strcmp(w1, why)) { snprintf(why, sizeof why, "%.330s [details vary from run to run with identical inputs]", w1); snprintf(sigk, sizeof sigk, "%s", s1); }
         /* the signature carries the structural context of a rendering mismatch so that different defects stay distinct */
         report(P_C13 ? "protocol" : "render");
     }
